@@ -12,7 +12,8 @@ def _state_counts(state_line):
         if not fn:
             continue
         head, _, pats = fn.partition(':[')
-        name = head.split(':')[0]
+        hp = head.split(':')
+        name = hp[0] + '::' + hp[2] if len(hp) > 2 else hp[0]
         counts = [p.split('/')[0] for p in pats.rstrip(']').split(';') if p]
         fns.append(f"{name}[{','.join(counts)}]")
     nxt = re.search(r'next=(\d+)', state_line)
